@@ -162,7 +162,7 @@ def run(c):
         progs.append({"par": {"win": {"A": 32768, "B": p["win"]}, "pkt": {"A": 32768, "B": p["pkt"]}, "tmo": {"A": "block", "B": "block"}},
                       "threads": th})
     progs += programs(rnd, 6 if c.quick else 200, c.quick)
-    deadline = time.time() + (8 if c.quick else 200)
+    deadline = time.time() + (120 if c.quick else 600)   # safety net only: the schedule counts bound the exploration, so the result does not depend on machine load
     explored = dc.explore_into(runs, c, progs, 2 if c.quick else 40, 3 if c.quick else 30, deadline, bound=1, max_steps=6000)
     laps["explore_s"] = round(time.time() - t0 - laps["model+replay_s"], 1)
     dc.validate(c, runs, INVS, describe)
